@@ -11,3 +11,14 @@ size_t strlen(const char* s) {
   while (s[i] != 0) { i++; }
   return i;
 }
+char* strcpy(char* dst, const char* src) { size_t i = 0; while (src[i] != 0) { dst[i] = src[i]; i++; } dst[i] = 0; return dst; }
+char* strcat(char* dst, const char* src) { size_t n = 0; while (dst[n] != 0) { n++; } size_t i = 0; while (src[i] != 0) { dst[n + i] = src[i]; i++; } dst[n + i] = 0; return dst; }
+char* strstr(const char* h, const char* n) {
+  if (n[0] == 0) return (char*)h;
+  for (size_t i = 0; h[i] != 0; i++) {
+    size_t j = 0;
+    while (n[j] != 0 && h[i + j] == n[j]) { j++; }
+    if (n[j] == 0) return (char*)(h + i);
+  }
+  return (char*)0;
+}
